@@ -1,8 +1,17 @@
 package main
 
+import "os"
+
 // Property table: which harness groups serve which property, and with what engine configuration.
 
-const repoDir = "/repo"
+// repoDir is the repository under test; $VERIF_REPO overrides it (used to evaluate seeded changes on a scratch
+// worktree without touching /repo)
+var repoDir = func() string {
+	if d := os.Getenv("VERIF_REPO"); d != "" {
+		return d
+	}
+	return "/repo"
+}()
 const csprotoPath = "github.com/CrowdStrike/csproto"
 
 var pureMerge = []string{
